@@ -2220,7 +2220,15 @@ impl<'a> Socket<'a> {
             && self.timer.is_zero_window_probe()
         {
             tcp_trace!("stopping zero-window-probe timer");
-            self.timer.set_for_idle(cx.now(), self.keep_alive);
+            if self.remote_last_seq != self.local_seq_no {
+                // Octets that were sent before the window closed are still
+                // unacknowledged (the peer shrank its window): they need the
+                // retransmission timer back, or nothing would ever resend them.
+                let rto = self.rtte.retransmission_timeout();
+                self.timer.set_for_retransmit(cx.now(), rto);
+            } else {
+                self.timer.set_for_idle(cx.now(), self.keep_alive);
+            }
         }
 
         let payload_len = payload.len();
